@@ -27,7 +27,8 @@ RULE = ('(a) exhaustive product: BFS from Utf8Validator.reset() drives the real 
 ASSUMPTIONS = [
     'vf/ref/utf8.py automaton is generated from the RFC 3629 section 4 ABNF and cross-checked against CPython '
     'strict decoding at start-up',
-    'fail-fast is judged only on connections without negotiated compression (weaker reading of the statement)',
+    'fail-fast is judged for every uncompressed (RSV1 clear) text message, also on a connection with permessage-deflate; '
+    'compressed text can only be validated once inflated',
 ]
 
 
@@ -273,7 +274,7 @@ def run_e2e(case, acc):
             key = 'invalid-text-delivered'
         elif npe != 1:
             key = 'invalid-text-no-single-protocol-error'
-    if key is None and not valid and not z:
+    if key is None and not valid and z != 'rsv1':
         # fail fast: how many stream bytes had been read when the ProtocolError was yielded?
         idx = names.index('protocol_error')
         real_idx = [i for i, e in enumerate(run.events) if e.name == 'protocol_error'][0]
@@ -285,7 +286,9 @@ def run_e2e(case, acc):
         if case['seg'] == 'bytewise':
             if read > deadline:
                 key = 'utf8-error-not-fail-fast'
-                if ctrl:
+                if z:
+                    key += ':uncompressed-text-on-a-connection-with-permessage-deflate'
+                elif ctrl:
                     key += ':after-control-frame-between-fragments'
             elif read < deadline and kbad is not None:
                 key = 'utf8-error-before-offending-byte'
